@@ -79,6 +79,28 @@ def insertion(element, batch, K, size=4):
     return mutation(element, spans, K, GARBAGE, judge, first_dom=GARBAGE0, extra_bounds={'family': 'insertion'})
 
 
+def operator_growth(element):
+    """one more operator character right after (or before) every reference operator: only the documented operators may result"""
+    from harness.common import Enum
+    text = T.ELEMENTS[element]
+    spans = []
+    for p, op in T.operator_sites(text):
+        spans.append((p + 1, p + 1, 'after operator ' + op))
+        spans.append((p, p, 'before operator ' + op))
+    base = base_content(element)
+
+    def judge(a, sp, g, outcome):
+        reached()
+        if outcome[0] == 'raise':
+            return ''
+        got = content(outcome[1])
+        if got == base:
+            return 'an extra operator character was silently ignored'
+        return _closed_sets(got)
+
+    return mutation(element, spans, 1, Enum('<>-=~'), judge, extra_bounds={'family': 'operator growth'})
+
+
 def substitution(element, family, batch, size=4):
     text = T.ELEMENTS[element]
     if family == 'struct':
@@ -163,6 +185,8 @@ def instances(tier):
                     continue
                 out.append({'name': f'sub/{fam}/{element}/b{b}', 'factory': 'substitution',
                             'params': {'element': element, 'family': fam, 'batch': b}, 'timeout': T1, 'native_limit': 60})
+    for element in ('refs', 'table'):
+        out.append({'name': f'opgrow/{element}', 'factory': 'operator_growth', 'params': {'element': element}, 'timeout': T1, 'native_limit': 60})
     if quick:
         have = {i['name'] for i in out}
         for b in range(1, _count('commented', 'insertion'), 2):      # faults between / inside commented regions
